@@ -208,11 +208,21 @@ func RunKillMatrix(ids []string, repo, verif string, ff *FindingsFile) ([]Mutant
 	sort.Strings(neutrals)
 	for _, mf := range neutrals {
 		var meta struct {
-			ID       string `json:"id"`
-			Property string `json:"property"`
+			ID         string   `json:"id"`
+			Property   string   `json:"property"`
+			Properties []string `json:"properties"`
 		}
 		b, err := os.ReadFile(mf)
-		if err != nil || json.Unmarshal(b, &meta) != nil || !want[meta.Property] {
+		if err != nil || json.Unmarshal(b, &meta) != nil {
+			continue
+		}
+		// a refactoring may be registered for several properties: take the first one asked for
+		for _, pr := range meta.Properties {
+			if want[pr] && !want[meta.Property] {
+				meta.Property = pr
+			}
+		}
+		if !want[meta.Property] {
 			continue
 		}
 		id := "neutral:" + meta.ID
